@@ -200,62 +200,85 @@ pub fn __as_f64<T: ToF64>(x: T) -> (r: f64) ensures r == x.to_f64_spec() { x.__t
 // R13: identity on f64 (see rule R13 of the extractor)
 pub fn __idf(x: f64) -> (r: f64) ensures r == x { x }
 
-// ---- extracted from src/solve/data.rs: struct RegretParams ----
-#[derive(Clone, Copy)]
-pub struct RegretParams {
-    /// The discount factor for positive cumulative regret or `α`.
-    ///
-    /// Positive cumulative regrets are discounted by `tᵅ/(tᵅ + 1)` every iteration `t`. Setting
-    /// alpha closer to infinity implies no discounting, while setting it at negative infinity
-    /// means imediate forgetting. Note that any non-positive value is probably not desired.
-    pub pos_regret: f64,
-    /// The discount factor for negative cumulative regret or `β`
-    ///
-    /// Negative cumulative regrets are discounted by `tᵝ/(tᵝ + 1)` every iteration `t`. The
-    /// values are the same as for positive regrets. Setting this to a non-positive value will
-    /// prevent the cumulative regret of negative regret actions from approaching negative
-    /// infinity, which can make pruning negative regret actions impossible.
-    pub neg_regret: f64,
-    /// The average strategy discount factor `γ`
-    ///
-    /// The average strategy is discounted by `(ᵗ⁄ₜ₊₁)ᵞ` every iteration t, which is equivalent to
-    /// weighting each strategy update by `tᵞ`.
-    pub strat: f64,
-    /// The scale for picking a strategy when all regrets are negative
-    ///
-    /// If all actions have negative regret, the chosen strategy can be anything. We use the
-    /// softmax of the regrets times this weight. Setting it to infinity is the same as always
-    /// playing the strategy with the highest regret. Zero is equivalent to playing each action
-    /// uniformly. No other values are recommend, but interpolate between those extremes.
-    pub no_positive: f64,
+// ---- prelude fragment: ideal.rs ----
+// Floating point, layer 2 ("idealised real" mode of DESIGN.md 3.2): machine arithmetic treated as
+// mathematical.  rv maps a float to the real it denotes; rounding, overflow, NaN and signed zero are
+// ignored.  Used only where the property is a statement of real arithmetic.
+pub uninterp spec fn rv(x: f64) -> real;
+pub broadcast axiom fn ax_rv_add(a: f64, b: f64) ensures rv(#[trigger] fadd(a, b)) == rv(a) + rv(b);
+pub broadcast axiom fn ax_rv_sub(a: f64, b: f64) ensures rv(#[trigger] fsub(a, b)) == rv(a) - rv(b);
+pub broadcast axiom fn ax_rv_mul(a: f64, b: f64) ensures rv(#[trigger] fmul(a, b)) == rv(a) * rv(b);
+pub broadcast axiom fn ax_rv_div(a: f64, b: f64) ensures rv(b) != 0real ==> rv(#[trigger] fdiv(a, b)) == rv(a) / rv(b);
+pub broadcast axiom fn ax_rv_neg(a: f64) ensures rv(#[trigger] fneg(a)) == 0real - rv(a);
+pub broadcast axiom fn ax_rv_cmp(a: f64, b: f64)
+    ensures #[trigger] fcmp(a, b) == (if rv(a) < rv(b) { Some(core::cmp::Ordering::Less) }
+        else if rv(a) == rv(b) { Some(core::cmp::Ordering::Equal) } else { Some(core::cmp::Ordering::Greater) });
+pub broadcast axiom fn ax_rv_eq(a: f64, b: f64) ensures #[trigger] feq(a, b) == (rv(a) == rv(b));
+pub broadcast axiom fn ax_rv_max(a: f64, b: f64) ensures rv(#[trigger] fmaxf(a, b)) == (if rv(a) >= rv(b) { rv(a) } else { rv(b) });
+pub broadcast axiom fn ax_rv_min(a: f64, b: f64) ensures rv(#[trigger] fminf(a, b)) == (if rv(a) <= rv(b) { rv(a) } else { rv(b) });
+// (idealised) powf denotes a function of the real values of its arguments
+pub uninterp spec fn rpow(x: real, y: real) -> real;
+pub broadcast axiom fn ax_rv_powf(a: f64, b: f64) ensures rv(#[trigger] fpowf(a, b)) == rpow(rv(a), rv(b));
+pub axiom fn ax_rv_lits()
+    ensures rv(0.0f64) == 0real, rv(1.0f64) == 1real, rv(2.0f64) == 2real, rv(0.5f64) * 2real == 1real;
+pub broadcast group ideal {
+    ax_rv_add, ax_rv_sub, ax_rv_mul, ax_rv_div, ax_rv_neg, ax_rv_cmp, ax_rv_eq, ax_rv_max, ax_rv_min, ax_rv_powf
+}
+// (idealised) integer-to-float casts are exact
+pub broadcast axiom fn ax_rv_u64(n: u64) ensures rv(#[trigger] u64_to_f64(n)) == n as real;
+pub broadcast axiom fn ax_rv_usize(n: usize) ensures rv(#[trigger] usize_to_f64(n)) == n as real;
+pub broadcast group ideal_casts { ax_rv_u64, ax_rv_usize }
+
+// ---- extracted from src/lib.rs: enum PlayerNum ----
+#[derive(Copy, Clone)]
+pub enum PlayerNum {
+    /// The first player
+    One,
+    /// The second player
+    Two,
 }
 
-// R5: the four update helpers of RegretParams seen from their callers: each is a PURE function of its
-// arguments with a frame (regret_match and cum_regret do not modify the regrets).  These contracts
-// are discharged per helper by Kani harnesses on the real bodies (c08_regret_match_*,
-// c08_discount_cum_regret, c08_discount_average_strat, c02_cum_regret_formula: formula + frame,
-// bounded to slices of length <= 3), so they are cited at the bounded level, assumed beyond it.
-pub uninterp spec fn rm_spec(p: RegretParams, cum_reg: Seq<f64>) -> Seq<f64>;
-pub uninterp spec fn dcr_spec(p: RegretParams, it: u64, cum_reg: Seq<f64>) -> Seq<f64>;
-pub uninterp spec fn das_spec(p: RegretParams, it: u64, avg: Seq<f64>) -> Seq<f64>;
-pub uninterp spec fn cr_spec(p: RegretParams, it: u64, cum_reg: Seq<f64>) -> f64;
-impl RegretParams {
+// PlayerNum::ind / ind_mut use slice patterns in a `match` (rejected by this Verus); they are kept
+// external with the two-case spec, and that spec is discharged against the real bodies by the
+// loop-free Kani harness `playernum_ind` (so it is cited, not assumed).
+impl PlayerNum {
     #[verifier::external_body]
-    pub fn regret_match(&self, cum_reg: &mut [f64], strat: &mut [f64])
-        ensures final(strat)@ == rm_spec(*self, old(cum_reg)@), final(cum_reg)@ == old(cum_reg)@,
+    pub fn ind<'a, T>(&self, arr: &'a [T; 2]) -> (r: &'a T)
+        ensures *r == (match *self { PlayerNum::One => arr[0], PlayerNum::Two => arr[1] })
     { unimplemented!() }
+
     #[verifier::external_body]
-    pub fn discount_cum_regret(&self, it: u64, cum_reg: &mut [f64])
-        ensures final(cum_reg)@ == dcr_spec(*self, it, old(cum_reg)@),
+    pub fn ind_mut<'a, T>(&self, arr: &'a mut [T; 2]) -> (r: &'a mut T)
+        ensures
+            *r == (match *self { PlayerNum::One => old(arr)[0], PlayerNum::Two => old(arr)[1] }),
+            match *self {
+                PlayerNum::One => final(arr)[0] == *final(r) && final(arr)[1] == old(arr)[1],
+                PlayerNum::Two => final(arr)[1] == *final(r) && final(arr)[0] == old(arr)[0],
+            },
     { unimplemented!() }
-    #[verifier::external_body]
-    pub fn discount_average_strat(&self, it: u64, avg_strat: &mut [f64])
-        ensures final(avg_strat)@ == das_spec(*self, it, old(avg_strat)@),
-    { unimplemented!() }
-    #[verifier::external_body]
-    pub fn cum_regret(&self, it: u64, cum_reg: &mut [f64]) -> (r: f64)
-        ensures r == cr_spec(*self, it, old(cum_reg)@), final(cum_reg)@ == old(cum_reg)@,
-    { unimplemented!() }
+}
+
+// ---- extracted from src/lib.rs: enum Node ----
+pub enum Node {
+    /// A terminal node, the game is over the payoff to player one
+    Terminal(f64),
+    /// A chance node, the game advances independent of player action
+    Chance(Chance),
+    /// a node in the tree where the player can choose between different actions
+    Player(Player),
+}
+
+// ---- extracted from src/lib.rs: struct Chance ----
+pub struct Chance {
+    pub outcomes: Box<[Node]>,
+    pub infoset: usize,
+}
+
+// ---- extracted from src/lib.rs: struct Player ----
+pub struct Player {
+    pub num: PlayerNum,
+    pub infoset: usize,
+    pub actions: Box<[Node]>,
 }
 
 // ---- extracted from src/solve/data.rs: struct RegretInfoset ----
@@ -265,111 +288,150 @@ pub struct RegretInfoset {
     pub strat: Box<[f64]>,
 }
 
-pub trait PlayerRecurse {
-    fn update_cum_strat(&mut self, prob: f64);
-    fn advance(&mut self, it: u64, params: &RegretParams) -> f64;
+// value of the traversal of the subtree below `n` entered with the given reaches (recursive calls of
+// recurse_single are bound to it: R5)
+pub uninterp spec fn sub_spec(n: Node, p_chance: f64, p_player: [f64; 2]) -> f64;
+// counterfactual weight of the acting player's regrets: opponent reach x chance reach, negated for
+// player two (payoffs are player one's)
+pub open spec fn mult_spec(num: PlayerNum, p_chance: f64, p_player: [f64; 2]) -> real {
+    match num { PlayerNum::One => rv(p_chance) * rv(p_player[1]), PlayerNum::Two => 0real - rv(p_player[0]) * rv(p_chance) }
 }
-pub struct Player { }
-pub struct Node { }
-pub trait ActiveInfo {
-    // callers pass the loop variable of `for it in 1..=max_iter`
-    fn advance<const FIRST: bool>(&mut self, it: u64, params: &RegretParams) -> f64
-        requires it >= 1;
-}
-
-// ---- extracted from src/solve/vanilla.rs: impl PlayerRecurse for RegretInfoset ----
-impl PlayerRecurse for RegretInfoset {
-fn advance(&mut self, it: u64, params: &RegretParams) -> (r: f64) 
-    ensures
-        // textbook order: the next strategy is matched on the regrets BEFORE discounting ...
-        final(self).strat@ == rm_spec(*params, old(self).cum_regret@), // @ob C08.V.advance.match_before_discount
-        // ... then regrets and average strategy are discounted with the caller's iteration number ...
-        final(self).cum_regret@ == dcr_spec(*params, it, old(self).cum_regret@), // @ob C08.V.advance.discount_regrets
-        final(self).cum_strat@ == das_spec(*params, it, old(self).cum_strat@), // @ob C08.V.advance.discount_average
-        // ... and the reported bound is that of the regrets AFTER discounting, same iteration number
-        r == cr_spec(*params, it, final(self).cum_regret@), // @ob C02.V.advance.reports_bound
-{
-        params.regret_match(&mut *self.cum_regret, &mut self.strat);
-        params.discount_cum_regret(it, &mut *self.cum_regret);
-        params.discount_average_strat(it, &mut self.cum_strat);
-        params.cum_regret(it, &mut *self.cum_regret)
+pub open spec fn own_reach(num: PlayerNum, p_player: [f64; 2]) -> f64 { match num { PlayerNum::One => p_player[0], PlayerNum::Two => p_player[1] } }
+// reach vector handed to the continuation of action a: only the acting player's entry is multiplied by sigma_a
+pub open spec fn pnext_ok(num: PlayerNum, p_player: [f64; 2], prob: f64, p_next: [f64; 2]) -> bool {
+    match num {
+        PlayerNum::One => rv(p_next[0]) == rv(p_player[0]) * rv(prob) && p_next[1] == p_player[1],
+        PlayerNum::Two => p_next[0] == p_player[0] && rv(p_next[1]) == rv(p_player[1]) * rv(prob),
     }
 }
-
-// R5: std::sync::Mutex as far as `advance` uses it: get_mut() on an exclusively borrowed mutex
-// returns the protected value (lock poisoning -- the Err case -- is not modelled: assumed Ok)
-#[derive(Debug)]
-pub struct PoisonError { }
-pub struct Mutex<T> { pub inner: T }
-impl<T> Mutex<T> {
+// u is the value of the subtree below `node`, entered with the SAME chance reach and a reach vector
+// in which only the acting player's entry is multiplied by the action's probability
+pub open spec fn child_value(node: Node, num: PlayerNum, p_chance: f64, p_player: [f64; 2], prob: f64, u: f64) -> bool {
+    exists|pn: [f64; 2]| pnext_ok(num, p_player, prob, pn) && u == #[trigger] sub_spec(node, p_chance, pn)
+}
+pub open spec fn exp_one(strat: Seq<f64>, us: Seq<f64>, k: int) -> real decreases k {
+    if k <= 0 { 0real } else { exp_one(strat, us, k - 1) + rv(strat[k - 1]) * rv(us[k - 1]) }
+}
+pub open spec fn exp_cf(strat: Seq<f64>, us: Seq<f64>, mult: real, k: int) -> real decreases k {
+    if k <= 0 { 0real } else { exp_cf(strat, us, mult, k - 1) + rv(us[k - 1]) * mult * rv(strat[k - 1]) }
+}
+// what one visit of a decision node does to its infoset and returns, given the children's values us:
+//   average strategy += own reach x current strategy;  regret_a += mult x u_a - sum_b u_b mult sigma_b;
+//   returned value sum_a sigma_a u_a
+pub open spec fn visit_ok(pl: Player, p_chance: f64, p_player: [f64; 2], before: RegretInfoset, after: RegretInfoset, res: f64) -> bool {
+    let m = mult_spec(pl.num, p_chance, p_player);
+    after.strat@ == before.strat@
+    && after.cum_strat@.len() == before.cum_strat@.len()
+    && (forall|i: int| 0 <= i < before.cum_strat@.len() ==> rv(#[trigger] after.cum_strat@[i]) == rv(before.cum_strat@[i]) + rv(own_reach(pl.num, p_player)) * rv(before.strat@[i]))
+    && after.cum_regret@.len() == before.cum_regret@.len()
+    && exists|us: Seq<f64>| us.len() == pl.actions@.len()
+        && (forall|a: int| 0 <= a < us.len() ==> #[trigger] child_value(pl.actions@[a], pl.num, p_chance, p_player, before.strat@[a], us[a]))
+        && (forall|a: int| 0 <= a < us.len() ==> rv(#[trigger] after.cum_regret@[a]) == rv(before.cum_regret@[a]) + rv(us[a]) * m - exp_cf(before.strat@, us, m, us.len() as int))
+        && rv(res) == exp_one(before.strat@, us, us.len() as int)
+}
+#[verifier::external_body] pub struct ChanceTables { }
+#[verifier::external_body]
+#[verifier::reject_recursive_types(T)]
+pub struct RefCell<T> { t: core::marker::PhantomData<T> }
+impl<T> RefCell<T> {
+    pub uninterp spec fn content(&self) -> T;
     #[verifier::external_body]
-    pub fn get_mut(&mut self) -> (r: Result<&mut T, PoisonError>)
-        ensures r is Ok, *(r->Ok_0) == old(self).inner, final(self).inner == *final(r->Ok_0),
+    pub fn borrow_mut(&self) -> (r: &mut T)
+        ensures *r == self.content(),
     { unimplemented!() }
 }
-pub trait MutexPlayerRecurse {
-    fn advance(&mut self, it: u64, params: &RegretParams) -> f64;
+pub trait PlayerRecurse {
+    fn update_cum_strat(&mut self, prob: f64);
 }
-
-// ---- extracted from src/solve/vanilla.rs: struct MutexRegretInfoset ----
-pub struct MutexRegretInfoset {
-    pub cum_regret: Box<[f64]>,
-    pub cum_strat: Mutex<Box<[f64]>>,
-    pub strat: Box<[f64]>,
+impl PlayerRecurse for RegretInfoset {
+    // contract proved for the real method by unit c08_update_cum_strat
+    #[verifier::external_body]
+    fn update_cum_strat(&mut self, prob: f64)
+        ensures
+            final(self).strat@ == old(self).strat@, final(self).cum_regret@ == old(self).cum_regret@,
+            final(self).cum_strat@.len() == old(self).cum_strat@.len(),
+            old(self).strat@.len() == old(self).cum_strat@.len() ==> forall|i: int| 0 <= i < old(self).cum_strat@.len() ==>
+                rv(#[trigger] final(self).cum_strat@[i]) == rv(old(self).cum_strat@[i]) + rv(prob) * rv(old(self).strat@[i]),
+    { unimplemented!() }
 }
-
-// ---- extracted from src/solve/vanilla.rs: impl MutexPlayerRecurse for MutexRegretInfoset ----
-impl MutexPlayerRecurse for MutexRegretInfoset {
-fn advance(&mut self, it: u64, params: &RegretParams) -> (r: f64) 
+// contract proved for the real recurse_player by unit c08_recurse_player (values of the continuation
+// named through sub_spec, which the continuation is REQUIRED to return)
+#[verifier::external_body]
+pub fn recurse_player<F: Fn(&Node, [f64; 2]) -> f64>(player: &Player, p_chance: f64, p_player: [f64; 2], strat: &[f64], cum_regret: &mut [f64], rec: F) -> (out: (f64, f64))
+    requires
+        forall|n: &Node, pn: [f64; 2]| #[trigger] rec.requires((n, pn)),
+        forall|n: &Node, pn: [f64; 2], o: f64| #[trigger] rec.ensures((n, pn), o) ==> o == sub_spec(*n, p_chance, pn),
     ensures
-        final(self).strat@ == rm_spec(*params, old(self).cum_regret@), // @ob C08.V.advance.match_before_discount
-        final(self).cum_regret@ == dcr_spec(*params, it, old(self).cum_regret@), // @ob C08.V.advance.discount_regrets
-        final(self).cum_strat.inner@ == das_spec(*params, it, old(self).cum_strat.inner@), // @ob C08.V.advance.discount_average
-        r == cr_spec(*params, it, final(self).cum_regret@), // @ob C02.V.advance.reports_bound
-{
-        params.regret_match(&mut *self.cum_regret, &mut self.strat);
-        params.discount_cum_regret(it, &mut *self.cum_regret);
-        params.discount_average_strat(it, self.cum_strat.get_mut().unwrap());
-        params.cum_regret(it, &mut *self.cum_regret)
-    }
-}
+        final(cum_regret)@.len() == old(cum_regret)@.len(),
+        exists|us: Seq<f64>| us.len() == player.actions@.len()
+            && (forall|a: int| 0 <= a < us.len() ==> #[trigger] child_value(player.actions@[a], player.num, p_chance, p_player, strat@[a], us[a]))
+            && (forall|a: int| 0 <= a < us.len() ==> rv(#[trigger] final(cum_regret)@[a]) == rv(old(cum_regret)@[a]) + rv(us[a]) * mult_spec(player.num, p_chance, p_player))
+            && rv(out.0) == exp_one(strat@, us, us.len() as int)
+            && rv(out.1) == exp_cf(strat@, us, mult_spec(player.num, p_chance, p_player), us.len() as int),
+{ unimplemented!() }
+#[verifier::external_body]
+pub fn __rec(node: &Node, chance_infosets: &ChanceTables, player_infosets: [&[RefCell<RegretInfoset>]; 2], p_chance: f64, p_player: [f64; 2]) -> (r: f64)
+    ensures r == sub_spec(*node, p_chance, p_player),
+{ unimplemented!() }
 
-// ---- extracted from src/solve/external.rs: struct CachedInfoset ----
-pub struct CachedInfoset {
-    pub reg: RegretInfoset,
-    pub cached: usize,
-}
-
-// ---- extracted from src/solve/external.rs: impl ActiveInfo for CachedInfoset ----
-impl ActiveInfo for CachedInfoset {
-fn advance<const FIRST: bool>(&mut self, it: u64, params: &RegretParams) -> (r: f64) 
+// ---- extracted from src/solve/vanilla.rs: fn recurse_single ----
+pub fn recurse_single__player_arm(player: &Player, chance_infosets: &ChanceTables, player_infosets: [&[RefCell<RegretInfoset>]; 2], p_chance: f64, p_player: [f64; 2]) -> (out: f64)
+    requires
+        player.infoset < (match player.num { PlayerNum::One => player_infosets[0]@, PlayerNum::Two => player_infosets[1]@ }).len(),
     ensures
-        // textbook order: the next strategy is matched on the regrets BEFORE discounting ...
-        final(self).reg.strat@ == rm_spec(*params, old(self).reg.cum_regret@), // @ob C08.V.advance.match_before_discount
-        // ... then regrets and average strategy are discounted with the caller's iteration number ...
-        final(self).reg.cum_regret@ == dcr_spec(*params, it, old(self).reg.cum_regret@), // @ob C08.V.advance.discount_regrets
-        final(self).reg.cum_strat@ == das_spec(*params, (if FIRST { (it - 1) as u64 } else { it }), old(self).reg.cum_strat@), // @ob C08.V.advance.discount_average
-        // ... and the reported bound is that of the regrets AFTER discounting, same iteration number
-        r == cr_spec(*params, it, final(self).reg.cum_regret@), // @ob C02.V.advance.reports_bound
-        final(self).cached == 0, // @ob C10.V.cached_infoset.advance_resets_draw
+        true,
 {
-        self.cached = 0;
-        params.regret_match(&mut *self.reg.cum_regret, &mut self.reg.strat);
-        params.discount_cum_regret(it, &mut *self.reg.cum_regret);
-        // NOTE since we alternate updates, when do the first discounting of player one's average
-        // strat, they'll actually have nothing acumulated, so we actualy want to update on the
-        // second round
-        params.discount_average_strat(if FIRST { it - 1 } else { it }, &mut self.reg.cum_strat);
-        params.cum_regret(it, &mut *self.reg.cum_regret)
-    }
+broadcast use fl; broadcast use ideal;
+proof { ax_obeys(); ax_rv_lits(); }
+let ghost cell = (match player.num { PlayerNum::One => player_infosets[0]@, PlayerNum::Two => player_infosets[1]@ })[player.infoset as int];
+let ghost before = cell.content();
+proof { assume(before.strat@.len() == player.actions@.len() && before.cum_strat@.len() == before.strat@.len() && before.cum_regret@.len() == before.strat@.len()); }
+
+            // get infoset
+            let mut info = player.num.ind(&player_infosets)[player.infoset].borrow_mut();
+            info.update_cum_strat(*player.num.ind(&p_player));
+            let RegretInfoset {
+                strat, cum_regret, ..
+            } = &mut *info;
+            let (res, sub) = recurse_player(
+                player,
+                p_chance,
+                p_player,
+                strat,
+                &mut **cum_regret,
+                |next: &Node, p_next: [f64; 2]| -> (o: f64) ensures o == sub_spec(*next, p_chance, p_next) {
+                    __rec(next, chance_infosets, player_infosets, p_chance, p_next)
+                },
+            );
+            let ghost mid = *info;
+let ghost n = mid.cum_regret@.len();
+let ghost c1 = mid.cum_regret@;
+for val in it: info.cum_regret.iter_mut() 
+invariant
+    it.snapshot@.remaining().len() == n, 0 <= it.index@ <= n,
+    forall|i: int| 0 <= i < n ==> *(#[trigger] it.snapshot@.remaining()[i]) == c1[i],
+    forall|i: int| 0 <= i < it.index@ ==> rv(*final(#[trigger] it.snapshot@.remaining()[i])) == rv(c1[i]) - rv(sub),
+ensures
+    forall|i: int| 0 <= i < n ==> rv(*final(#[trigger] it.snapshot@.remaining()[i])) == rv(c1[i]) - rv(sub),
+{
+broadcast use fl; broadcast use ideal;
+proof { ax_obeys(); ax_rv_lits(); }
+
+                *val = *val - ( sub);
+            }
+            proof {
+    // the infoset visited is the acting player's infoset of this node, and one visit does exactly this to it:
+    assert(visit_ok(*player, p_chance, p_player, before, *info, res)); // @ob C08.V.recurse_single.player_arm
 }
+res
+        }
 
 
 // vacuity canary: must be REJECTED by the verifier (an inconsistent axiom set would accept it)
 pub proof fn __canary_must_fail()
     ensures false, // @ob __canary
 {
-    broadcast use fl; ax_obeys();
+    broadcast use fl; broadcast use ideal; ax_obeys(); ax_rv_lits();
 }
 
 } // verus!
